@@ -250,6 +250,11 @@ def f2(tier, rnd) -> List[Desc]:
           M.packet('PayloadThenPad', [M.scalar('tag', 8), M.payload(), M.array('trailer', width=16, count=2), M.padding(6)]),
           M.packet('CountPad', [M.count('x', 8), M.array('x', width=16), M.padding(4)])]
     out.extend(both(Desc('f2_static_special', _le([ed['En16'], ed['Sst']] + pk), 'F2', core=True)))
+    # arrays of an enum whose width is not a native integer width (element octets != backing integer octets)
+    En24 = M.enum('En24', 24, [M.TagValue('A', 0xa0b0c0), M.TagValue('B', 0x010203)])
+    pk = [M.packet('EnArrSz', [M.size('x', 8), M.array('x', type_id='En24'), M.scalar('t', 8)]),
+          M.packet('EnArrCnt', [M.count('x', 8), M.array('x', type_id='En24')])]
+    out.extend(both(Desc('f2_en24_arrays', _le([En24] + pk), 'F2', core=True)))
     # arrays of derived structs (static total size through inheritance)
     Base = M.struct('Base', [M.scalar('tag', 8), M.payload()])
     Item = M.struct('Item', [M.scalar('v', 16)], 'Base', [('tag', 7)])
@@ -399,7 +404,7 @@ def f5(tier, rnd) -> List[Desc]:
                                M.scalar('b', 16, cond=('c', 1))]),
           M.packet('TwoOpp', [M.scalar('c', 1), M.reserved(7), M.scalar('a', 8, cond=('c', 1)),
                               M.scalar('b', 16, cond=('c', 0))])]
-    out += both(Desc('f5_shared_flag', _le(pk), 'F5', python=False,
+    out += both(Desc('f5_shared_flag', _le(pk), 'F5', python=False, core=True,
                      notes='two optional fields on one flag: python serializer only looks at the first'))
     return out
 
@@ -416,6 +421,13 @@ def f7(tier, rnd) -> List[Desc]:
     # the same declarations with forward references (uses before declarations)
     pk = [M.packet('Nest', [M.scalar('h', 8), M.typedef('m', 'Mid'), M.typedef('i2', 'In')])]
     out.extend(both(Desc('f7_forward', _le(pk + [Mid, Dy, In]), 'F7', core=True)))
+    # statically sized struct fields that are not at offset 0 of their static run (slice start != 0)
+    Pt = M.struct('Pt', [M.scalar('x', 8), M.scalar('y', 16)])
+    Un = M.struct('Un', [M.scalar('v', 8)])
+    pk = [M.packet('Second', [M.scalar('kind', 8), M.typedef('p', 'Pt'), M.scalar('t', 8)]),
+          M.packet('Third', [M.typedef('a', 'Un'), M.typedef('b', 'Un')]),
+          M.struct('Holder', [M.scalar('k', 16), M.typedef('p', 'Pt')])]
+    out.extend(both(Desc('f7_static_offset', _le([Pt, Un] + pk), 'F7', core=True)))
     for w in (8, 16, 24, 32, 40, 64):
         cf = M.custom_field(f'Cf{w}', w)
         pk = [M.packet('C', [M.typedef('c', cf.name)]),
@@ -481,13 +493,16 @@ CORE_KINDS = {
     'f2_static_special': {'One32': ['c01', 'c04'], 'OneEn': ['c04'], 'StaticPad': ['c03', 'c16'],
                           'PayloadThenPad': ['c04', 'c02'], 'CountPad': ['c01', 'c04'], 'One8': ['c03']},
     'f2_derived_elem': {'Table': ['c03'], 'Inner': ['c03']},
+    'f2_en24_arrays': {'EnArrSz': ['c03', 'c04'], 'EnArrCnt': ['c02']},
     'f5_odd_widths': {'Opt24': ['c01', 'c04', 'c02', 'c03', 'c05'], 'Opt40p': ['c03'], 'OptEn24': ['c03', 'c05'],
-                      'OptChild': ['c02'], 'Opt56t': ['c04']},
+                      'OptChild': ['c02', 'c04r'], 'Opt56t': ['c04']},
+    'f5_shared_flag': {'TwoSame': ['c05'], 'TwoOpp': ['c05']},
     'f4_tlv_field': {'Child': ['c02', 'c03']},
     'f3_empty': {'Empty': ['c18d', 'c01'], 'Blob': ['c18d', 'c04'], 'SBlob': ['c18d'], 'OnlyReserved': ['c04'],
                  'TrailingReserved': ['c04']},
     'f4_wide_constraint': {'Frame': ['c06s', 'c06t'], 'Ping': ['c06v', 'c03']},
     'f7_forward': {'Nest': ['c03']},
+    'f7_static_offset': {'Second': ['c04']},
     'f7_custom16': {'C': ['c01'], 'C2': ['c03']},
     'f2_u24': {'A_count': ['c05', 'c02'], 'A_static': ['c03']},
 }
